@@ -662,13 +662,13 @@ fn k_mask_args() {
     kani::cover!(x == 2 && y == 1 && w == 2 && h == 2);
 }
 
-// @ob id=K.pop_layer_args props=C06,C02,C11 kind=bounded:surface=3x2 tier=quick timeout=600 fns=DrawTarget::pop_layer
+// @ob id=K.pop_layer_args props=C06,C02,C11,C10 kind=bounded:surface=3x2 tier=quick timeout=600 fns=DrawTarget::pop_layer
 // @+ desc="pop_layer pops exactly one layer and composites ONCE: source = the layer buffer as a Pad/Nearest image of the layer's size translated so texel (i,j) sits at device (rect.min.x+i, rect.min.y+j); coverage = round(opacity*255) at every surface pixel (mask rect = whole surface); region = layer rect; blend = layer blend; alpha 1; under the identity transform; destination = what is on top after the pop; the current transform is restored bit for bit"
 #[kani::proof]
 #[kani::unwind(9)]
 #[kani::stub(DrawTarget::composite, composite_rec)]
 fn k_pop_layer_args() { pop_layer_args(false); }
-// @ob id=K.pop_layer_args_nested props=C06 kind=bounded:surface=3x2 tier=quick timeout=600 fns=DrawTarget::pop_layer
+// @ob id=K.pop_layer_args_nested props=C06,C10 kind=bounded:surface=3x2 tier=quick timeout=600 fns=DrawTarget::pop_layer
 // @+ desc="pop_layer with another layer beneath: same contract; the destination of the single composite is the layer beneath (layers nest)"
 #[kani::proof]
 #[kani::unwind(9)]
@@ -776,13 +776,9 @@ fn k_clear_unclipped() {
     kani::cover!(!with_layer);
 }
 
-// @ob id=K.clear_clipped props=C03,C06,C11,C14 kind=bounded:surface=3x2 tier=quick timeout=600 fns=DrawTarget::clear
-// @+ desc="clear(c) under a non-empty clip stack: exactly one fill of the rectangle (0,0,width,height) with Source::Solid(c), blend Src, alpha 1, under the identity transform (so it goes through the clip and the layer selection of composite), and the current transform is restored bit for bit"
-#[kani::proof]
-#[kani::unwind(9)]
-#[kani::stub(DrawTarget::fill, fill_rec)]
-fn k_clear_clipped() {
-    let mut dt = wf_target_sym(1);
+fn clear_clipped_contract(clip_kind: u8) {
+    let mut dt = wf_target_sym(clip_kind);
+    let crect = dt.clip_bounds();
     let t = Transform::new(kani::any(), kani::any(), kani::any(), kani::any(), kani::any(), kani::any());
     dt.transform = t;
     let surf0: [u32; 6] = kani::any();
@@ -791,17 +787,42 @@ fn k_clear_clipped() {
     comp_reset();
     dt.clear(c);
     let f = unsafe { &FILL };
-    assert!(f.n == 1, "one fill");
-    assert!(f.blend == BlendMode::Src && f.alpha_bits == 1f32.to_bits() && f.src_kind == 0 && f.solid == c.to_u32(), "Src fill of the colour, alpha 1");
-    assert!(f.ops == 5 && f.closed, "a closed rectangle path");
-    assert!(f.pts[0] == (0f32.to_bits(), 0f32.to_bits()) && f.pts[1] == ((CW as f32).to_bits(), 0f32.to_bits())
-         && f.pts[2] == ((CW as f32).to_bits(), (CH as f32).to_bits()) && f.pts[3] == (0f32.to_bits(), (CH as f32).to_bits()), "the whole surface rectangle");
-    assert!(xf_eq(&f.transform_at_call, &xf_bits(&Transform::identity())), "filled in device space");
+    if f.n == 0 {
+        // a direct write is acceptable only where it is indistinguishable from the clipped fill: a rectangular clip
+        // (no path coverage), every pixel inside the clip rectangle set to the colour, every pixel outside untouched
+        assert!(clip_kind == 1, "under a clip PATH clear() must go through the clipped fill (coverage weighting)");
+        let mut i = 0;
+        while i < 6 {
+            let (x, y) = ((i % 3) as i32, (i / 3) as i32);
+            let inside = x >= crect.min.x && x < crect.max.x && y >= crect.min.y && y < crect.max.y;
+            assert!(dt.buf[i] == if inside { c.to_u32() } else { surf0[i] }, "direct clear writes exactly the clip rectangle");
+            i += 1;
+        }
+    } else {
+        assert!(f.n == 1, "one fill");
+        assert!(f.blend == BlendMode::Src && f.alpha_bits == 1f32.to_bits() && f.src_kind == 0 && f.solid == c.to_u32(), "Src fill of the colour, alpha 1");
+        assert!(f.ops == 5 && f.closed, "a closed rectangle path");
+        assert!(f.pts[0] == (0f32.to_bits(), 0f32.to_bits()) && f.pts[1] == ((CW as f32).to_bits(), 0f32.to_bits())
+             && f.pts[2] == ((CW as f32).to_bits(), (CH as f32).to_bits()) && f.pts[3] == (0f32.to_bits(), (CH as f32).to_bits()), "the whole surface rectangle");
+        assert!(xf_eq(&f.transform_at_call, &xf_bits(&Transform::identity())), "filled in device space");
+        let mut i = 0;
+        while i < 6 { assert!(dt.buf[i] == surf0[i], "no direct write bypasses the clip"); i += 1; }
+    }
     assert!(xf_eq(&xf_bits(&dt.transform), &xf_bits(&t)), "current transform restored");
-    let mut i = 0;
-    while i < 6 { assert!(dt.buf[i] == surf0[i], "no direct write bypasses the clip"); i += 1; }
-    kani::cover!(true);
+    kani::cover!(f.n == 1);
 }
+// @ob id=K.clear_clipped props=C03,C05,C06,C11,C14 kind=bounded:surface=3x2 tier=quick timeout=600 fns=DrawTarget::clear
+// @+ desc="clear(c) under a rectangular clip (symbolic rect): either exactly one fill of the rectangle (0,0,width,height) with Source::Solid(c), blend Src, alpha 1, under the identity transform (so it goes through the clip and layer selection of composite) and no direct write, or a direct write of exactly the clip rectangle's pixels; the current transform is restored bit for bit"
+#[kani::proof]
+#[kani::unwind(9)]
+#[kani::stub(DrawTarget::fill, fill_rec)]
+fn k_clear_clipped() { clear_clipped_contract(1); }
+// @ob id=K.clear_clip_path props=C05,C03 kind=bounded:surface=3x2 tier=quick timeout=600 fns=DrawTarget::clear
+// @+ desc="clear(c) under a clip PATH (symbolic coverage mask, any clip bounds incl. the whole surface): must be the clipped Src fill (coverage-weighted), never a direct buffer write; transform restored"
+#[kani::proof]
+#[kani::unwind(9)]
+#[kani::stub(DrawTarget::fill, fill_rec)]
+fn k_clear_clip_path() { clear_clipped_contract(2); }
 
 // ------------------------------------------------------------------ path -> edges (C01 #10, C08 #1, C10 #4, C11 #1)
 pub const EDGE_CAP: usize = 10;
@@ -1017,7 +1038,7 @@ fn choose_blitter_case(with_mask: bool, clip_kind: u8, srcover: bool) {
     }
     kani::cover!(width == 3);
 }
-// @ob id=K.choose_blitter props=C03,C05,C14 kind=complete unwind_complete=yes tier=quick timeout=900 fns=DrawTarget::choose_blitter
+// @ob id=K.choose_blitter props=C03,C05,C14,C06,C02,C07 kind=complete unwind_complete=yes tier=quick timeout=900 fns=DrawTarget::choose_blitter
 // @+ desc="choose_blitter, all 12 combinations of (mask?, clip stack: empty | rect only | path mask on top, SrcOver?): the variant is a function of (mask?, TOP clip entry has a mask?, SrcOver?) only (a mask-less clip entry does not change the blitter); x,y = dest_bounds.min, dest_stride = dest_bounds.width, tmp.len() = surface width, clip = the top entry's mask with clip_stride = surface width, row proc = build_blend_proc(mode); dest_bounds symbolic"
 #[kani::proof]
 #[kani::unwind(9)]
@@ -1193,3 +1214,93 @@ fn k_composite_surface_32() { composite_surface_contract(3, 2, 2, 3); }
 #[kani::proof]
 #[kani::unwind(14)]
 fn k_composite_surface_zero() { composite_surface_contract(0, 2, 2, 0); }
+
+// ------------------------------------------------------------------ pixel layout, byte views, constructors (C19)
+// @ob id=K.byte_views props=C19 kind=bounded:2-words tier=quick timeout=600 fns=DrawTarget::get_data_u8,DrawTarget::get_data_u8_mut,DrawTarget::get_data,DrawTarget::get_data_mut
+// @+ desc="get_data_u8 / get_data_u8_mut expose the same memory as the u32 words: length 4*w*h, byte 4k+j == (word_k >> 8j) & 0xff on the little-endian target (B,G,R,A), a write through either view is visible through the other; no out-of-bounds or misaligned access in the unsafe blocks (CBMC pointer checks); the cast is length independent, the 2-word bound only sizes the buffer"
+#[kani::proof]
+#[kani::unwind(10)]
+fn k_byte_views() {
+    let mut dt = DrawTarget::new(2, 1);
+    let w: [u32; 2] = kani::any();
+    dt.get_data_mut().copy_from_slice(&w);
+    {
+        let b = dt.get_data_u8();
+        assert!(b.len() == 8, "4 bytes per pixel");
+        let mut k = 0;
+        while k < 8 { assert!(b[k] as u32 == (w[k / 4] >> (8 * (k % 4))) & 0xff, "bytes are B,G,R,A of each word"); k += 1; }
+    }
+    let i: usize = kani::any();
+    let v: u8 = kani::any();
+    kani::assume(i < 8);
+    dt.get_data_u8_mut()[i] = v;
+    let d = dt.get_data();
+    let exp = (w[i / 4] & !(0xffu32 << (8 * (i % 4)))) | ((v as u32) << (8 * (i % 4)));
+    assert!(d[i / 4] == exp && d[1 - i / 4] == w[1 - i / 4], "a byte write is visible through the word view and touches nothing else");
+    dt.get_data_mut()[1] = 0x11223344;
+    assert!(dt.get_data_u8()[4] == 0x44 && dt.get_data_u8()[7] == 0x11, "a word write is visible through the byte view");
+    kani::cover!(i == 7);
+}
+
+// @ob id=K.ctor_roundtrip props=C19,C07 kind=bounded:2x2 tier=quick timeout=600 fns=DrawTarget::new,DrawTarget::from_vec,DrawTarget::from_backing,DrawTarget::into_vec,DrawTarget::into_inner
+// @+ desc="constructors and destructors round-trip the buffer: new() is all zero words of length w*h; from_vec pads with 0 / truncates to w*h and keeps the leading words; from_backing keeps the given buffer (same contents, same length); into_vec / into_inner return it unchanged; zero-sized surfaces are fine"
+#[kani::proof]
+#[kani::unwind(12)]
+fn k_ctor_roundtrip() {
+    let v: [u32; 4] = kani::any();
+    let dt = DrawTarget::new(2, 2);
+    assert!(dt.get_data().len() == 4 && dt.get_data()[0] == 0 && dt.get_data()[3] == 0, "new: zeroed w*h words");
+    let dt = DrawTarget::from_vec(2, 2, vec![v[0], v[1]]);
+    assert!(dt.get_data().len() == 4 && dt.get_data()[0] == v[0] && dt.get_data()[1] == v[1] && dt.get_data()[2] == 0 && dt.get_data()[3] == 0, "from_vec pads with zeros");
+    let out = dt.into_vec();
+    assert!(out.len() == 4 && out[1] == v[1], "into_vec returns the buffer");
+    let dt = DrawTarget::from_vec(1, 2, vec![v[0], v[1], v[2]]);
+    assert!(dt.get_data().len() == 2 && dt.get_data()[1] == v[1], "from_vec truncates to w*h");
+    let dt = DrawTarget::from_backing(2, 2, vec![v[0], v[1], v[2], v[3]]);
+    assert!(dt.width() == 2 && dt.height() == 2 && dt.get_data()[2] == v[2], "from_backing keeps the buffer");
+    let b = dt.into_inner();
+    assert!(b.len() == 4 && b[0] == v[0] && b[1] == v[1] && b[2] == v[2] && b[3] == v[3], "into_inner returns the same words");
+    let z = DrawTarget::new(0, 0);
+    assert!(z.get_data().len() == 0 && z.get_data_u8().len() == 0, "zero-sized surface");
+    kani::cover!(true);
+}
+
+// ------------------------------------------------------------------ current transform (C11 #1)
+// @ob id=K.apply_path_transform props=C11,C08 kind=bounded:ops=3 tier=quick timeout=1200 fns=DrawTarget::apply_path,Path::transform
+// @+ desc="filling under a current transform T hands the rasteriser the same edges as filling Path::transform(T) of the path under the identity: for every sequence of 3 ops over {MoveTo, LineTo, Close}, EVERY f32 coordinate and EVERY affine T (transform_point as an uninterpreted function carrying only the identity law, proved in K.transform_point_identity) the two add_edge sequences are equal; every path point goes through the current transform exactly once"
+#[kani::proof]
+#[kani::unwind(16)]
+#[kani::stub(Rasterizer::add_edge, add_edge_rec)]
+#[kani::stub(DrawTarget::quad_to, quad_to_rec)]
+#[kani::stub(DrawTarget::cubic_to, cubic_to_rec)]
+#[kani::stub(euclid::Transform2D::transform_point, transform_point_uf)]
+fn k_apply_path_transform() {
+    let m: [f32; 6] = kani::any();
+    let t = Transform::new(m[0], m[1], m[2], m[3], m[4], m[5]);
+    let v: [f32; 6] = kani::any();
+    let k: [u8; 3] = kani::any();
+    kani::assume(k[0] <= 2 && k[1] <= 2 && k[2] <= 2);
+    let mk = |i: usize| match k[i] { 0 => PathOp::MoveTo(Point::new(v[2 * i], v[2 * i + 1])), 1 => PathOp::LineTo(Point::new(v[2 * i], v[2 * i + 1])), _ => PathOp::Close };
+    let path = Path { ops: vec![mk(0), mk(1), mk(2)], winding: Winding::NonZero };
+    uf_tp_reset();
+    let mut a = DrawTarget::new(CW, CH);
+    a.transform = t;
+    edges_reset();
+    a.apply_path(&path);
+    let (e0, n0) = edges_snapshot();
+    let pre = path.clone().transform(&t);
+    let mut b = DrawTarget::new(CW, CH);
+    edges_reset();
+    b.apply_path(&pre);
+    let (e1, n1) = edges_snapshot();
+    assert!(n0 == n1, "same number of edges");
+    let mut i = 0;
+    while i < 5 {
+        if i < n0 {
+            assert!(e0[i].sx.to_bits() == e1[i].sx.to_bits() && e0[i].sy.to_bits() == e1[i].sy.to_bits() && e0[i].ex.to_bits() == e1[i].ex.to_bits() && e0[i].ey.to_bits() == e1[i].ey.to_bits() && e0[i].curve == e1[i].curve,
+                    "fill under T == fill of Path::transform(T) under the identity (same edges)");
+        }
+        i += 1;
+    }
+    kani::cover!(n0 == 3);
+}
